@@ -16,12 +16,12 @@ CLAIMS = {
  "C10": ("V1-V4 freshness/type/replay/binding checks", "window constants normalised to accept intervals; dominance of every accepting return by timestamp, type, salt-lookup and echo checks; cache expiry >= 2x window", "4/C10"),
  "C11": ("F1-F4 filter use-sites and constants", "filter success edge dominates forwarding; refusal edge returns to the loop head; one filter per session; window constant relations", "4/C11"),
  "C12": ("N1-N4 nonce provenance", "per-session secrets derive from the CSPRNG and forbidden RNGs are never called; one generator step per AEAD call; packet-id increments dominate encodes", "4/C12"),
+ "C13": ("H1-H6 local-handshake clauses", "roles resolved by type (dispatcher, sniffer, extractor, SOCKS5 exchange); the tunnelled address derives only from the parsed request; each protocol's answer is written on its own arm behind the read it answers; plain HTTP arm touches nothing; CONNECT consumption tied to the parser's length; SOCKS5 readers keep their buffer between phases; refusal edges reach Err; parser status tested and Partial never answered; version/selector constants", "11"),
  "C14": ("E1-E4 address encoders", "narrowing casts of wire lengths are range-guarded; empty name refused; sibling encode/decode/length tables agree per variant; checked UTF-8", "4/C14"),
  "C15": ("D1-D4 teardown wiring", "first-error-wins join with all-Err futures, forward/close on every pump, failure paths drop the inbound, JoinHandle owners abort on drop", "4/C15"),
  "C16": ("G1-G6 configuration tables", "serde names vs README tables, cipher kind -> algorithm -> key size -> const generic, mode predicates vs listeners, password->key sibling agreement, key length checked, no start-up panics", "4/C16"),
 }
 NA = {
- "C13": "value-level URI/authority string semantics and how many bytes a single socket read returns: no structural rule is both necessary and non-brittle (DESIGN.md section 5); its crash/segmentation and length clauses are decided under C04, C07, C14",
 }
 
 def main():
